@@ -52,12 +52,12 @@ PROPS = {
     'C02': _p(['item', 'item', 'mixed', 'script'], ['C02.order', 'C02.conserve'], RULE_STEP, 6000, 400000, _STEP),
     'C03': _p(['story', 'item', 'mixed', 'meta'], ['C03.frame'], RULE_STEP, 6000, 400000, _STEP),
     'C04': _p(['mixed', 'story', 'item', 'meta', 'script'], ['C04.payload'], RULE_STEP, 6000, 400000, _STEP),
-    'C05': _p(['story', 'item', 'mixed'], ['C05.atomic'], RULE_STEP, 6000, 400000, _STEP, faulty=True),
-    'C06': _p(['story', 'item', 'mixed'], ['C06.count', 'C06.silent', 'C06.spurious', 'C06.rest', 'C06.all-ids'], RULE_STEP, 6000, 400000, _STEP),
+    'C05': _p(['story', 'item', 'mixed', 'kofn'], ['C05.atomic'], RULE_STEP, 6000, 400000, _STEP, faulty=True),
+    'C06': _p(['story', 'item', 'mixed', 'kofn'], ['C06.count', 'C06.silent', 'C06.spurious', 'C06.rest', 'C06.all-ids'], RULE_STEP, 6000, 400000, _STEP),
     'C07': _p(['end', 'end', 'mixed', 'collection'], ['C07.terminal', 'C07.terminal-changed', 'C07.never-completed', 'C07.complete',
                                                       'C07.content', 'C07.record', 'C07.roundtrip', 'C07.flag'], RULE_STEP, 4000, 300000,
               {'roundtrip': True, 'accessors': False, 'message': False}),
-    'C08': _p(['classify'], ['C08.class', 'C08.config'], RULE_CLASSIFY, 4000, 300000, _STEP),
+    'C08': _p(['classify'] * 15 + ['trunc'], ['C08.class', 'C08.config'], RULE_CLASSIFY, 4000, 300000, _STEP),
     'C09': _p(['collection'], ['C09.fold', 'C09.strict', 'C09.nonstrict'], RULE_BATCH, 3000, 200000, _STEP),
     'C10': _p(['collection'], ['C10.order', 'C10.perm', 'C10.sort'], RULE_BATCH, 3000, 200000, _STEP),
     'C11': _p(['collection'], ['C11.accept', 'C11.after'], RULE_BATCH, 3000, 200000, _STEP,
@@ -76,5 +76,5 @@ PROPS = {
     'C19': _p(['cli'], ['C19.detect', 'C19.inspect', 'C19.merge'], RULE_CLI, 2500, 150000, _STEP),
     'C20': _p(['mixed', 'story', 'item'], ['C20.ids', 'C20.content', 'C20.inspect'], RULE_STEP, 4000, 300000,
               {'roundtrip': False, 'accessors': False, 'message': True}),
-    'C12': _p(['mixed', 'story', 'item', 'timing', 'classify'], ['C12.exc', 'C12.progress'], RULE_STEP, 6000, 400000, _STEP),
+    'C12': _p(['mixed', 'story', 'item', 'timing', 'classify', 'kofn'], ['C12.exc', 'C12.progress'], RULE_STEP, 6000, 400000, _STEP),
 }
